@@ -311,6 +311,10 @@ def rescale(img, scale, shape=None, mask=None, order=3, mode='nearest',
     """
 
     img = np.asarray(img)
+    if not np.issubdtype(img.dtype, np.inexact):
+        # interpolation and masking are done in floating point (integer and
+        # boolean images, e.g. binary masks, are accepted)
+        img = img.astype(float)
 
     if mask is None:
         # take the real portion to ensure that even if img is complex, mask will
